@@ -51,6 +51,16 @@ SHAPES = {
         ("b", "timed", dict(duration=0.5, next_state="c")),
         ("c", "timed", dict(duration=0.125)),
     ],
+    # last timed state with duration 0 (the run-exactly-once idiom)
+    "S10": [
+        ("a", "timed", dict(first=True, duration=0.25, next_state="b")),
+        ("b", "timed", dict(duration=0)),
+    ],
+    # the last timed state is also must_finish (and has no successor)
+    "S11": [
+        ("a", "timed", dict(first=True, duration=0.25, next_state="b")),
+        ("b", "timed", dict(duration=0.5, must_finish=True)),
+    ],
     # timed chain ending in a default-state machine (stop-by-expiry with a default state)
     "S8": [
         ("a", "timed", dict(first=True, duration=0.25, next_state="b")),
@@ -117,6 +127,7 @@ class Recorder:
         self.clock = None
         self.ncalls = 0
         self.sm = None
+        self.other_calls = 0
 
     def nextseq(self):
         self.seq += 1
@@ -125,11 +136,16 @@ class Recorder:
     def cur(self):
         return self.iters[-1]
 
-    def on_done(self):
+    def on_done(self, sm=None):
+        if sm is not None and sm is not self.sm and self.sm is not None:
+            return
         self.cur().done_seqs.append(self.nextseq())
 
     def call(self, sm, name, tm, state_tm, ic):
         c = self.c
+        if sm is not self.sm and self.sm is not None:
+            self.other_calls += 1  # a second instance of the same class (twin): not the machine under observation
+            return
         it = self.cur()
         m = self.meta[name]
         self.ncalls += 1
@@ -242,7 +258,7 @@ def build_class(shape, asm, variant, H):
         return (f"{indent}{deco}\n{indent}def {name}(self, {', '.join(perm)}):\n"
                 f"{indent}    self._H.call(self, {name!r}, tm, state_tm, initial_call)\n")
 
-    common = ("    def done(self):\n        self._H.on_done()\n        super().done()\n")
+    common = ("    def done(self):\n        self._H.on_done(self)\n        super().done()\n")
     if shape == "S5":
         src = "class B0(Base):\n"
         src += fsrc("a", "state", dict(first=True), 0)
@@ -292,6 +308,9 @@ def ext_menu(meta, cfg):
         return [("engage", None, False), ("none", None, False)]
     menu = [("none", None, False), ("engage", None, False)]
     menu += [("engage", t, False) for t in tg]
+    if cfg.get("engage_by_reference") and tg:
+        # initial_state given as the state object (StateRef = Union[str, _State]) instead of its name
+        menu.append(("engage", ("ref", tg[0]), False))
     menu.append(("engage", None, True))
     menu += [("engage", t, True) for t in tg[:1]]
     menu += [("done", None, False), ("on_disable", None, False)]
@@ -361,6 +380,20 @@ def run_history(c, job):
     H = Recorder(c, None, cfg)
     H.clock = clock
     sm, meta = make_machine(c, job, H)
+    twin = None
+    if cfg.get("twin"):
+        # a second live instance of the same class, engaged and executed in between (instances must not share state)
+        import logging
+
+        import magicbot.magic_tunable as mt
+
+        twin = type(sm)()
+        twin.logger = logging.getLogger("twin")
+        _NTID[0] += 1
+        mt.setup_tunables(twin, f"twin{_NTID[0]}" if not world.is_sym() else "twin")
+        for name, d in H.durations.items():
+            if job.get("sym_durations", True):
+                setattr(twin, f"{name}_duration", d)
     menu = ext_menu(meta, cfg)
     K = cfg["K"]
     for i in range(K):
@@ -376,7 +409,10 @@ def run_history(c, job):
             it.ext.append((op, tgt, force))
             if op == "engage":
                 kw = {}
-                if tgt is not None:
+                if isinstance(tgt, tuple):
+                    kw["initial_state"] = getattr(type(sm), tgt[1])
+                    it.ext[-1] = (op, tgt[1], force)
+                elif tgt is not None:
                     kw["initial_state"] = tgt
                 if force:
                     kw["force"] = True
@@ -391,6 +427,11 @@ def run_history(c, job):
                     d = c.real(f"dur{i}_{name}", 0, 100)
                     setattr(sm, f"{name}_duration", d)
                     H.durations[name] = d
+        if twin is not None:
+            c.reach("twin-ran")
+            if c.choose(f"twin_eng{i}", 2):
+                twin.engage()
+            twin.execute()
         it.exec_seq = H.nextseq()
         nreads = len(clock.reads)
         try:
